@@ -448,7 +448,11 @@ def r6(k: Kit) -> None:
                         return True
                     return None
                 ok_b = g.guarded_by(nd.id, val) is None
-            rep.check(ok_a or ok_b, 'C07.R6',
+            # (c) the stored value itself was tested for emptiness
+            ok_c = False
+            if isinstance(v, ast.Name):
+                ok_c = g.guarded_by(nd.id, atom_truthy_of(v.id)) is None
+            rep.check(ok_a or ok_b or ok_c, 'C07.R6',
                       key(fi, f'`{norm(st)[:40]}` leaves no empty head'),
                       'remainder is non-empty by its guard, or an empty '
                       'remainder is popped',
